@@ -30,6 +30,8 @@ EXPLANATION = (
 class Sub(bmc.Scenario):
     """prefix: batch with update 1 reserved for n1 jobs, nothing inserted yet"""
 
+    oob_is_violation = True   # an accepted bunch that writes a job / dependency row outside 1..J names a job that cannot exist
+
     def prefix_batch(self, commit=False):
         self.begin('create_batch')
         outs = self.w.create_batch('tokA', n_jobs=self.n1, n_job_groups=0)
@@ -45,13 +47,17 @@ class Sub(bmc.Scenario):
             rel = 1 + r + off
             absj = first_abs + r + off
             in_update, absolute = [], []
-            kind = inp.choose(f'{tag}_parent_kind_{r}', ['none', 'earlier', 'self', 'later', 'absolute'])
+            kind = inp.choose(f'{tag}_parent_kind_{r}', ['none', 'earlier', 'self', 'later', 'absolute', 'zero', 'negative'])
             if kind == 'earlier' and rel > 1:
                 in_update.append(rel - 1)
             elif kind == 'self':
                 in_update.append(rel)
             elif kind == 'later':
                 in_update.append(rel + 1)
+            elif kind == 'zero':
+                in_update.append(0)
+            elif kind == 'negative':
+                in_update.append(-1)
             elif kind == 'absolute':
                 absolute.append(inp.choose(f'{tag}_abs_parent_{r}', list(range(1, J + 1))))
             sp = bo.job_spec(rel, parents=absolute, in_update_parents=in_update, group=0,
@@ -78,7 +84,7 @@ class Sub(bmc.Scenario):
         fe, _ = bo.front_end()
         h = inspect.unwrap(fe.create_jobs_for_update)
         w = self.w
-        n2 = self.sizes.J - self.n1
+        n2 = self.later_jobs(2)
 
         def make(app):
             specs, res = self.weird_specs(n2, self.n1 + 1, 'u2', 2)
@@ -100,6 +106,9 @@ def asserts(sc):
     js = {f.j: f for f in oracle.jobs(db)}
     rows = db.t['batch_updates'].rows
     ups = sorted(k[1] for k in rows)
+    from vt.sqlsym.interp import is_sym as _is
+    out.append(('no job or dependency row outside the id space 1..J (a job that cannot exist)',
+                z3.Not(db.oob) if _is(db.oob) else (not db.oob)))
     for k, r in db.t['job_parents'].rows.items():
         j, p = k[1], k[2]
         if not (1 <= p < j):
@@ -150,7 +159,7 @@ def run(R):
         def classify(bad, vals, sc, known):
             if known:
                 return 'accepts-dependency-on-job-of-unfinished-earlier-update'
-            if any('not an earlier job' in b or 'parent' in b for b in bad):
+            if any('not an earlier job' in b or 'parent' in b or 'cannot exist' in b for b in bad):
                 return 'accepts-missing-later-or-self-dependency'
             if any('reserved range' in b for b in bad):
                 return 'accepts-job-id-outside-reserved-range'
